@@ -71,8 +71,12 @@ def unit_pred(args, prefix=(), max_depth=None):
         for msg, mdl in cx.failed_obligations(want_model=True):
             out['cex'].append({'kind': 'predicates', 'n': n, 'x': mdl.eval(x, model_completion=True).as_long(),
                                'y': mdl.eval(y, model_completion=True).as_long(), 'what': f'obligation {msg}'})
-        if not cx.check_fresh():
+        mdl = cx.check_fresh(want_model=True)
+        if mdl is None:
             out['inconclusive'] = ['vacuous']
+        elif not out['cex']:
+            out['witness'] = {'kind': 'predicates', 'n': n, 'x': mdl.eval(x, model_completion=True).as_long(),
+                              'y': mdl.eval(y, model_completion=True).as_long()}
         out['sample'] = {'unit': f'predicates width {n}', 'queries': NAMES, 'inputs': 'two arbitrary bitsets',
                          'verdict': 'unsat' if not out['cex'] else 'sat'}
         return out
